@@ -5,7 +5,7 @@ import json, os, shutil, subprocess, sys, tempfile
 from concurrent.futures import ThreadPoolExecutor
 
 VERIF = os.path.dirname(os.path.dirname(os.path.abspath(__file__)))
-PROPS = [f"C{i:02d}" for i in range(1, 21)]
+PROPS = os.environ.get("HEXLINT_PROPS", "").split() or [f"C{i:02d}" for i in range(1, 21)]
 seeds = sys.argv[1:] or sorted(d for d in os.listdir(os.path.join(VERIF, "seeded")) if os.path.isfile(os.path.join(VERIF, "seeded", d, "patch.diff")))
 
 
@@ -29,7 +29,7 @@ def run_seed(sid):
         shutil.rmtree(tmp, ignore_errors=True)
 
 
-with ThreadPoolExecutor(8) as ex:
+with ThreadPoolExecutor(int(os.environ.get("HEXLINT_JOBS", "8"))) as ex:
     results = dict(ex.map(run_seed, seeds))
 path = os.path.join(VERIF, "seeded", "MATRIX.json")
 old = json.load(open(path)) if os.path.exists(path) and sys.argv[1:] else {}
